@@ -37,6 +37,141 @@ def fold_valid_casts(chk, m):
     return ce, func, set(val)
 
 
+def accepted_by_interpretation(chk, m):
+    """{(source, target)} accepted by `Cast.is_valid_cast`, obtained by interpreting the function from source (A19) for
+    every pair of the type universe - wherever the table lives (in the function, at module level, behind a cached
+    builder) and however it is spelled"""
+    import itertools as _it
+
+    from ..catalogue import _itertools_chain, _itertools_product
+    from ..interp import Func, Interp, PyRaise
+    from ..typefns import LazyNS
+
+    ce = chk.repo.mod("tree.col_expr")
+    func = ce.func("Cast.is_valid_cast")
+    T = m.cat.types
+    env = dict(T.env)
+    env["itertools"] = _ModuleNS({"product": _itertools_product, "chain": _itertools_chain})
+    env["functools"] = _ModuleNS({"cache": None, "lru_cache": None})
+    env["types"] = LazyNS(dict(m_types_env(m)))
+    it = Interp(ce, env)
+    module_assigns = {}
+    for st in ce.tree.body:
+        if isinstance(st, ast.Assign) and len(st.targets) == 1 and isinstance(st.targets[0], ast.Name):
+            module_assigns[st.targets[0].id] = st.value
+        elif isinstance(st, ast.AnnAssign) and isinstance(st.target, ast.Name) and st.value is not None:
+            module_assigns[st.target.id] = st.value
+        elif isinstance(st, ast.FunctionDef):
+            module_assigns[st.name] = st
+    resolving = set()
+
+    def resolve(name):
+        if name not in module_assigns or name in resolving:
+            raise KeyError(name)
+        resolving.add(name)
+        try:
+            v = module_assigns[name]
+            val = Func(v, env, it) if isinstance(v, ast.FunctionDef) else it.ev(v, env)
+        finally:
+            resolving.discard(name)
+        env[name] = val
+        return val
+
+    it.global_resolver = resolve
+    fn = Func(func, env, it)
+    ints = [DT(f"{u}Int{b}") for u in ("U", "") for b in (8, 16, 32, 64)]
+    base = ints + [DT("Int"), DT("Float32"), DT("Float64"), DT("Decimal"), DT("Float"), DT("String"), DT("Bool"), DT("Date"),
+                   DT("Datetime"), DT("Time"), DT("Duration"), DT("NullType")]  # fmt: skip
+    for t in list(T.INT_SUBTYPES) + list(T.FLOAT_SUBTYPES):
+        if t not in base:
+            base.append(t)
+    sources = base + [DT("String", 7), DT("Const", DT("Int64")), DT("Const", DT("String")), DT("Enum", "a", "b")]
+    targets = base + [DT("Enum", "a", "b")]
+    accepted = set()
+    for s_, t_ in _it.product(sources, targets):
+        try:
+            r = it.call(fn, [s_, t_], {}, func, env)
+        except PyRaise as p_:
+            raise AnalysisError(f"C17: Cast.is_valid_cast({s_!r}, {t_!r}) fails when interpreted: {p_.name} {p_.msg}") from None
+        if r:
+            accepted.add((s_, t_))
+    chk.used(ce, func)
+    return ce, func, accepted, sources, targets
+
+
+def _cast_dtype_interpreted(chk, m, ce, accepted, sources, targets):
+    """R2: `Cast.dtype` interpreted from source for every (source, target) pair: it returns the target type (const iff the
+    source is const) exactly when `converts_to` or `is_valid_cast` accepts the pair, raises DataTypeError otherwise, and
+    returns None while the source type is unknown - whatever the control flow looks like."""
+    from ..catalogue import _itertools_chain, _itertools_product
+    from ..interp import ExcCtor, Func, Interp, Obj, PyRaise
+    from ..typefns import LazyNS
+
+    T = m.cat.types
+    st = m._source_types
+    env = dict(T.env)
+    env["itertools"] = _ModuleNS({"product": _itertools_product, "chain": _itertools_chain})
+    env["types"] = LazyNS(dict(m_types_env(m)))
+    env["DataTypeError"] = ExcCtor("DataTypeError")
+    it = Interp(ce, env)
+    module_assigns = {}
+    for s_ in ce.tree.body:
+        if isinstance(s_, ast.Assign) and len(s_.targets) == 1 and isinstance(s_.targets[0], ast.Name):
+            module_assigns[s_.targets[0].id] = s_.value
+        elif isinstance(s_, ast.FunctionDef):
+            module_assigns[s_.name] = s_
+    resolving = set()
+
+    def resolve(name):
+        if name not in module_assigns or name in resolving:
+            raise KeyError(name)
+        resolving.add(name)
+        try:
+            v = module_assigns[name]
+            val = Func(v, env, it) if isinstance(v, ast.FunctionDef) else it.ev(v, env)
+        finally:
+            resolving.discard(name)
+        env[name] = val
+        return val
+
+    it.global_resolver = resolve
+    cast_cls = it.make_class(ce.cls("Cast"), env)
+    env["Cast"] = cast_cls
+    stub = ast.parse("class _Val:\n    def dtype(self):\n        return self.t\n").body[0]
+    val_cls = it.make_class(stub, env)
+    dt = ce.func("Cast.dtype")
+    bad = []
+    n = 0
+    for s_ in sources + [None]:
+        for t_ in targets:
+            n += 1
+            v = Obj(val_cls)
+            v.attrs["t"] = s_
+            me = Obj(cast_cls)
+            me.attrs.update({"val": v, "target_type": t_, "_dtype": t_, "_fn_id": None, "strict": True, "_ftype": None})
+            try:
+                r = it.call(cast_cls.methods["dtype"].bind(me), [], {}, dt, env)
+                got = ("ok", r)
+            except PyRaise as p_:
+                got = ("raise", p_.name)
+            if s_ is None:
+                want = ("ok", None)
+            else:
+                try:
+                    conv = st.converts_to(s_, t_)
+                except PyRaise:
+                    conv = False
+                if conv or (s_, t_) in accepted:
+                    want = ("ok", DT("Const", t_) if s_.cls == "Const" else t_)
+                else:
+                    want = ("raise", "DataTypeError")
+            if got != want:
+                bad.append((s_, t_, got, want))
+    chk.ob("R2", ce, dt, f"Cast.dtype interpreted on {n} (source, target) pairs: target type iff converts_to or is_valid_cast, else DataTypeError",
+           not bad,
+           f"Cast.dtype deviates for {len(bad)} pairs, e.g. cast {bad[0][0]!r} -> {bad[0][1]!r} gives {bad[0][2]} instead of {bad[0][3]}" if bad else "")  # fmt: skip
+
+
 def documented_table(T):
     """the table of the ColExpr.cast docstring / property C17, by family"""
     ints = tuple(T.INT_SUBTYPES)
@@ -82,10 +217,10 @@ def run(chk):
     m = model_of(chk)
     T = m.cat.types
     chk.explanation = (
-        "VALID_CASTS is constant-folded from the source of Cast.is_valid_cast and compared as a set with the documented "
-        "table; Cast.__init__/dtype and each back end's cast compilation are decided structurally."
+        "Cast.is_valid_cast is interpreted from source (type-system interpreter A19) on every pair of the type universe "
+        "and compared with the documented table; Cast.__init__/dtype and each back end's cast compilation are decided structurally."
     )
-    chk.rule("R1", "folded VALID_CASTS equals the documented conversion table (by family x sized subtypes), nothing else")
+    chk.rule("R1", "Cast.is_valid_cast, interpreted from source on every (source, target) pair of the type universe, accepts exactly the documented conversion table")
     chk.rule("R2", "Cast validates eagerly; non-raising paths of Cast.dtype imply converts_to or is_valid_cast; DataTypeError otherwise")
     chk.rule("R3", "every cast_compiled / Polars cast targets the node's own target_type (and strict where supported)")
     chk.rule("R4", "float->int casts are truncated explicitly on engines whose CAST rounds (PostgreSQL, DuckDB)")
@@ -94,40 +229,37 @@ def run(chk):
 
     chk.rule("R6", "type-level helper functions of the cast compilers are total over the int / float family that reaches them (interpreted from source)")
 
-    ce, func, valid = fold_valid_casts(chk, m)
+    ce, func, accepted, sources, targets = accepted_by_interpretation(chk, m)
     exp, rows = documented_table(T)
-    chk.floor("R1", "folded VALID_CASTS pairs", len(valid), 100)
-    for pair in sorted(exp | valid, key=repr):
-        in_v, in_e = pair in valid, pair in exp
-        if in_v and in_e:
-            chk.ok("R1", ce, func, f"cast {pair[0]!r} -> {pair[1]!r}")
-        elif in_v:
-            chk.fail("R1", ce, func, f"cast {pair[0]!r} -> {pair[1]!r} accepted",
-                     f"VALID_CASTS accepts {pair[0]!r} -> {pair[1]!r}, which the documented table does not list: it is no longer rejected with DataTypeError")  # fmt: skip
-        else:
-            chk.fail("R1", ce, func, f"cast {pair[0]!r} -> {pair[1]!r} missing",
-                     f"the documented cast {pair[0]!r} -> {pair[1]!r} is not in VALID_CASTS: it is rejected although the table promises it")  # fmt: skip
-    chk.extra_cov["documented_rows"] = [{"row": w, "pairs": n} for w, n in rows]
+    # what the documented table means for the universe: sources are looked up without const and without a string
+    # length; String -> Enum is the one extra documented entry
+    def documented(s_, t_):
+        b = s_.base if s_.cls == "Const" else s_
+        if b.isinstance("String"):
+            b = DT("String")  # Enum is a string type (subclass of String in pydiverse.common): same row of the table
+        if b.cls == "String" and t_.cls == "Enum":
+            return True
+        return (b, t_) in exp
 
-    # is_valid_cast normalises the source and answers by membership
-    ret_ok = False
-    norm_const = norm_str = enum_ok = False
-    for n in ast.walk(func):
-        if isinstance(n, ast.Return) and isinstance(n.value, ast.Compare) and len(n.value.ops) == 1:
-            if isinstance(n.value.ops[0], ast.In) and norm(n.value.comparators[0]) == "VALID_CASTS":
-                ret_ok = norm(n.value.left).replace(" ", "") == "(source,target)"
-        if isinstance(n, ast.Call) and (dotted(n.func) or "").endswith("without_const"):
-            norm_const = True
-        if isinstance(n, ast.If) and "isinstance(source, String)" in norm(n.test) and "Enum" not in norm(n.test):
-            norm_str = True
-        if isinstance(n, ast.If) and "Enum" in norm(n.test) and any(isinstance(r, ast.Return) and norm(r.value) == "True" for r in n.body):
-            enum_ok = "isinstance(source, String)" in norm(n.test) and "isinstance(target, Enum)" in norm(n.test)
-    chk.ob("R1", ce, func, "is_valid_cast answers `(source, target) in VALID_CASTS`", ret_ok,
-           "is_valid_cast does not decide by membership of (source, target) in the table")  # fmt: skip
-    chk.ob("R1", ce, func, "is_valid_cast strips const and max_length from the source", norm_const and norm_str,
-           "const / bounded-string sources are no longer normalised before the table lookup (String(n) and const sources rejected)")  # fmt: skip
-    chk.ob("R1", ce, func, "String -> Enum is accepted, and only from String", enum_ok,
-           "the String -> Enum entry of the documented table is not decided by `isinstance(source, String) and isinstance(target, Enum)`")  # fmt: skip
+    valid = {(s_, t_) for s_, t_ in accepted}
+    chk.floor("R1", "accepted (source, target) pairs of the universe", len(valid), 100)
+    n_pairs = 0
+    for s_ in sources:
+        for t_ in targets:
+            n_pairs += 1
+            a, d = (s_, t_) in accepted, documented(s_, t_)
+            if a == d:
+                if a:
+                    chk.ok("R1", ce, func, f"cast {s_!r} -> {t_!r}")
+                continue
+            if a:
+                chk.fail("R1", ce, func, f"cast {s_!r} -> {t_!r} accepted",
+                         f"Cast.is_valid_cast accepts {s_!r} -> {t_!r}, which the documented table does not list: it is no longer rejected with DataTypeError")  # fmt: skip
+            else:
+                chk.fail("R1", ce, func, f"cast {s_!r} -> {t_!r} missing",
+                         f"the documented cast {s_!r} -> {t_!r} is rejected by Cast.is_valid_cast although the table promises it")  # fmt: skip
+    chk.extra_cov["documented_rows"] = [{"row": w, "pairs": n} for w, n in rows]
+    chk.extra_cov["interpreted_pairs"] = n_pairs
 
     # ---- R2
     init = ce.func("Cast.__init__")
@@ -139,38 +271,7 @@ def run(chk):
         for r in ast.walk(init)
     )
     chk.ob("R2", ce, init, "Cast.__init__ rejects const target types", const_reject, "cast to a const type is no longer rejected")
-    dt = ce.func("Cast.dtype")
-    raises = [n for n in ast.walk(dt) if isinstance(n, ast.Raise)]
-    good = False
-    for r in raises:
-        exc = r.exc
-        nm = ((dotted(exc.func) if isinstance(exc, ast.Call) else dotted(exc)) or "").split(".")[-1] if exc else ""
-        if nm != "DataTypeError":
-            continue
-        negs = _neg_calls(dominating_tests(r, dt))
-        if {"converts_to", "is_valid_cast"} <= negs:
-            good = True
-    chk.ob("R2", ce, dt, "raise DataTypeError iff not converts_to and not is_valid_cast", good,
-           "Cast.dtype has no DataTypeError guarded by `not converts_to(..)` and `not is_valid_cast(..)`")  # fmt: skip
-    # every return either is the unknown-type early exit or comes after the check
-    for kind, node in exits(dt):
-        if kind == "fall":
-            chk.fail("R2", ce, dt, "Cast.dtype falls off the end", "Cast.dtype can end without returning the type")
-        elif kind in ("return", "bare-return"):
-            tests = dominating_tests(node, dt)
-            early = any("is None" in norm(t) and pol for t, pol in tests)
-            guards = preceding_guards(node, dt)
-            after_check = any("converts_to" in norm(t) for t, _ in guards) or any(
-                isinstance(st, ast.If) and "converts_to" in norm(st.test) and st.lineno < node.lineno for st in dt.body
-            )
-            chk.ob("R2", ce, node, f"Cast.dtype exit: {norm(node)[:80]}", early or after_check,
-                   "Cast.dtype returns a type on a path that does not pass the conversion check")  # fmt: skip
-    # arguments of the two checks
-    for c in calls_in(dt):
-        nm = (dotted(c.func) or "").split(".")[-1]
-        if nm in ("converts_to", "is_valid_cast") and len(c.args) == 2:
-            chk.ob("R2", ce, c, norm(c)[:100], "val.dtype()" in norm(c.args[0]) and norm(c.args[1]).endswith("target_type"),
-                   f"{nm} is not asked about (source = self.val.dtype(), target = self.target_type)")  # fmt: skip
+    _cast_dtype_interpreted(chk, m, ce, accepted, sources, targets)
 
     # ---- R3 back ends
     n_cc = 0
